@@ -374,7 +374,9 @@ pub fn c17(ctx: &Ctx) -> (CheckMeta, Outcome) {
         let mut out = Outcome::new();
         out.cov.configs.insert("i128/u128".into());
         zigzag_check!(u128, i128, windows!(i128, u128, 128, half), out, "i128");
-        out.cov.sample(json!({"i128": [i128::MIN.to_string(), i128::MIN.to_nat().to_string()]}));
+        if let Ok(n) = std::panic::catch_unwind(|| i128::MIN.to_nat()) {
+            out.cov.sample(json!({"i128": [i128::MIN.to_string(), n.to_string()]}));
+        }
         out
     }));
     tasks.push(Box::new(move || {
